@@ -388,6 +388,72 @@ pub fn run(ctx: &mut Ctx, dom: &str, a: &[Arg]) {
                 dump_getters(ctx, &g, &h);
             }
         }
+        "hbigwalk" => {
+            // n copies of one padded header tag between a valid basic header (I386) and the end tag
+            let (n, tag) = (a[0].n() as usize, a[1].b());
+            let l = tag.len();
+            let total = 16 + n * l + 8;
+            let mut region = Vec::with_capacity(total);
+            let magic = multiboot2_header::MAGIC;
+            region.extend_from_slice(&magic.to_le_bytes());
+            region.extend_from_slice(&0u32.to_le_bytes());
+            region.extend_from_slice(&(total as u32).to_le_bytes());
+            region.extend_from_slice(&0u32.wrapping_sub(magic).wrapping_sub(total as u32).to_le_bytes());
+            for _ in 0..n {
+                region.extend_from_slice(tag);
+            }
+            region.extend_from_slice(&[0, 0, 0, 0, 8, 0, 0, 0]);
+            let g = Guarded::new(&region, 0, ctx.place_end);
+            drop(region);
+            let r = guard(|| unsafe { Multiboot2Header::load(g.ptr.cast::<Multiboot2BasicHeader>()) });
+            match r {
+                Err(()) => ctx.ln("load", "PANIC"),
+                Ok(Err(e)) => ctx.ln("load", load_err(e)),
+                Ok(Ok(h)) => {
+                    ctx.ln("load", format!("VAL length={}", h.length()));
+                    let gvc = |r: Result<String, ()>| r.unwrap_or_else(|_| "PANIC".to_string());
+                    ctx.ln("tags_count", gvc(guard(|| format!("VAL {}", h.iter().count()))));
+                    ctx.ln(
+                        "tags_last",
+                        match guard(|| h.iter().last()) {
+                            Ok(Some(t)) => format!("VAL {}", view(&g, t)),
+                            Ok(None) => "VAL none".to_string(),
+                            Err(()) => "PANIC".to_string(),
+                        },
+                    );
+                    for k in [n.saturating_sub(1), n, n + 1] {
+                        let v = match guard(|| h.iter().nth(k)) {
+                            Ok(Some(t)) => format!("VAL {}", view(&g, t)),
+                            Ok(None) => "VAL none".to_string(),
+                            Err(()) => "PANIC".to_string(),
+                        };
+                        ctx.ln("tags_nth", format!("{} {}", k, v));
+                    }
+                    macro_rules! gk {
+                        ($name:expr, $f:ident) => {
+                            ctx.ln(
+                                "get",
+                                match guard(|| h.$f()) {
+                                    Ok(Some(t)) => format!("{} some {}", $name, view(&g, t)),
+                                    Ok(None) => format!("{} none", $name),
+                                    Err(()) => format!("{} PANIC", $name),
+                                },
+                            )
+                        };
+                    }
+                    gk!("information_request", information_request_tag);
+                    gk!("address", address_tag);
+                    gk!("entry_address", entry_address_tag);
+                    gk!("entry_address_efi32", entry_address_efi32_tag);
+                    gk!("entry_address_efi64", entry_address_efi64_tag);
+                    gk!("console_flags", console_flags_tag);
+                    gk!("framebuffer", framebuffer_tag);
+                    gk!("module_align", module_align_tag);
+                    gk!("efi_boot_services", efi_boot_services_tag);
+                    gk!("relocatable", relocatable_tag);
+                }
+            }
+        }
         "hdrhuge" => {
             // a header whose 16 bytes declare a length up to 4 GiB, backed by that many (untouched, zero) bytes
             let h16 = a[0].b();
